@@ -29,7 +29,7 @@ static Pair gen_pair(ByteSource& in, CaseInfo& ci, size_t cap = 0) {
   if (!cap) cap = cap_limbs(in.scale);
   Pair p; p.g_known = true;
   size_t n = size_near(in, 1, cap, {HGCD_THRESHOLD, HGCD_APPR_THRESHOLD, GCDEXT_DC_THRESHOLD, GCD_DC_THRESHOLD, 2, 3, 2 * HGCD_THRESHOLD});
-  unsigned k = in.pick({6, 4, 2, 2, 2, 1, 1, 2});
+  unsigned k = in.pick({6, 4, 2, 2, 2, 1, 1, 2, 2});
   Int g(1);
   { unsigned gk = in.pick({4, 2, 2, 2}); if (gk == 1) g = ref::pow2(in.range(0, 64 * std::min<size_t>(n, 8))); else if (gk == 2) { Limbs v = limbs_nz(in, (size_t)in.logrange(1, std::max<size_t>(1, n / 2))); g = Int::from_limbs(v.data(), v.size()); ci.label("planted_big_g"); } else if (gk == 3) g = Int::from_u64(in.range(1, 1000)); }
   switch (k) {
@@ -44,6 +44,13 @@ static Pair gen_pair(ByteSource& in, CaseInfo& ci, size_t cap = 0) {
     case 7: { // congruent modulo B^j: equal low limbs, so that subtraction steps leave whole zero limbs
       Limbs u = limbs_nz(in, n); p.a = Int::from_limbs(u.data(), n); size_t j = in.flag() ? 1 : (size_t)in.range(1, n); Int c = in.flag() ? Int::from_u64(in.range(1, 40)) : gen_int(in, std::max<size_t>(1, n - j + 1), false); if (c.is_zero()) c = Int(2);
       p.b = p.a + ref::shl(c, 64 * j); if (std::max(p.a.size(), p.b.size()) <= 260) p.g = ref::gcd(p.a, p.b); else p.g_known = false; if (in.flag()) std::swap(p.a, p.b); ci.label("equal_low_limbs"); break; }
+    case 8: { // one big quotient followed by a remainder that is a limb shorter than the divisor: a = B^(an-1) + low (top limb 1, then zeros), r just below B^(an-1), b = q*a + r;
+      // optionally presented as (b*B^j + a, b), whose first division step is exact up to a
+      size_t qn = std::max<size_t>(1, in.flag() ? n / 7 + (size_t)in.range(0, 3) : (size_t)in.range(1, std::max<size_t>(1, n / 2))); size_t an = n > qn + 2 ? n - qn : 3;
+      Int low = gen_int(in, std::max<size_t>(1, an / 2), false), low2 = gen_int(in, std::max<size_t>(1, an / 2), false); Int a = ref::pow2(64 * (an - 1)) + low, r = ref::pow2(64 * (an - 1)) - Int(1) - low2; if (r.neg) r = Int(1);
+      Limbs qv = limbs_nz(in, qn); Int q = Int::from_limbs(qv.data(), qn); Int b = q * a + r;
+      if (in.flag()) { p.a = ref::shl(b, 64 * (size_t)in.range(1, 3)) + a; p.b = b; } else { p.a = b; p.b = a; }
+      if (std::max(p.a.size(), p.b.size()) <= 260) p.g = ref::gcd(p.a, p.b); else p.g_known = false; if (in.flag()) std::swap(p.a, p.b); ci.label("big_quotient_then_short_remainder"); break; }
     default: { // neighbours: a, a+-small
       Limbs u = limbs_nz(in, n); p.a = Int::from_limbs(u.data(), n); p.b = p.a + Int((long long)in.srange(-3, 3)); if (p.b.neg) p.b = -p.b; p.g = ref::gcd(p.a - p.b, p.b); ci.label("neighbours"); break; }
   }
@@ -232,6 +239,6 @@ static void check(ByteSource& in, CaseInfo& ci) {
 namespace eng {
 PropDef g_prop = {"C07",
   "Cases: mpz_gcd / mpz_gcdext (incl. t=NULL, outputs aliasing inputs) / mpz_lcm / mpz_gcd_ui / mpz_lcm_ui / mpz_invert (|m|>1, both signs, a outside [0,|m|)) / mpn_gcd (s2 odd, s1 >= s2 in bits, copies passed) / mpn_gcdext (U>=V>0, xn+1 limb areas) / mpn_gcd_1 / mpz_jacobi (=kronecker), mpz_legendre (odd primes), the four mixed kronecker entry points (all sign and parity combinations, b=0,+-1,+-2, 2-adic valuations crossing limbs). Operand pairs: g*(x,y) with (x,y) coprime built backwards from a chosen quotient sequence (mixed sizes, runs of 1 = Fibonacci-like, one huge partial quotient), planted g (1, 2^k, multi-limb), random pairs of different sizes, a=b, b|a, |b|=2g, zero operands, neighbours, pairs congruent modulo B^j (equal low limbs); a rare class (~1 in 1300 cases) of 13800..30000-limb operands (hgcd_reduce regime) with long all-ones runs; sizes around HGCD/GCDEXT_DC/GCD_DC thresholds up to the scale cap. Oracle: refint: g>=0, g|a, g|b, a*s+b*t=g (certificate), the manual's cofactor bounds and exceptional cases, lcm=|ab|/g, inverse in [0,|m|) with a*r=1 mod m, textbook Kronecker recursion; gcd of large random pairs is taken from a refint-verified certificate. Non-trivial: both operands >= 2 limbs. Distinct = hash of all decoded choices.",
-  check, nullptr, {"a_eq_b", "b_divides_a", "b_eq_2g", "fib_like", "huge_partial_quotient", "above_hgcd_threshold", "above_gcd_dc_threshold", "rule:|a|=|b|", "rule:s=sgn(a)", "rule:t=sgn(b)", "kron:b_even", "kron:b_negative", "kron:b_zero", "kron:zero", "invert:none", "planted_big_g", "equal_low_limbs", "huge_hgcd_reduce"}, nullptr, sweep_count, sweep_item,
+  check, nullptr, {"a_eq_b", "b_divides_a", "b_eq_2g", "fib_like", "huge_partial_quotient", "above_hgcd_threshold", "above_gcd_dc_threshold", "rule:|a|=|b|", "rule:s=sgn(a)", "rule:t=sgn(b)", "kron:b_even", "kron:b_negative", "kron:b_zero", "kron:zero", "invert:none", "planted_big_g", "equal_low_limbs", "huge_hgcd_reduce", "big_quotient_then_short_remainder"}, nullptr, sweep_count, sweep_item,
   "every (a,b) in [-64,64]^2: mpz_gcd, mpz_gcdext (certificate, cofactor bounds and all exceptional cases of the manual), mpz_lcm, mpz_gcd_ui/lcm_ui (b>=0), mpz_invert (|b|>1), mpz_jacobi/kronecker and the four mixed kronecker entry points, mpz_legendre for odd prime b, mpn_gcd_1; plus every pair of two-limb values with limbs from a 12-value palette {0,1,2,3,5,7,2^63,2^63+1,2^64-1,2^64-3,2^32,0xaaa..ab} (20736 pairs x 4 sign combinations): mpz_jacobi, mpz_gcd, mpz_gcdext, mpz_invert"};
 }
